@@ -47,7 +47,7 @@ Proof.
   intros Hn (a & b & c & Hin & Hu). rewrite fem_tria_B_lumped_form.
   assert (Hpos : forall t, In t ts -> 0 < tria_vol4_fn v ts t).
   { intros t Ht. rewrite tria_vol4_fn_nondeg by assumption. unfold tria_nondeg in Hn. rewrite Forall_forall in Hn.
-    specialize (Hn t Ht). apply Rltb_false in Hn. assert (E := eps52_pos). lra. }
+    specialize (Hn t Ht). cbv beta in Hn. lra. }
   (* every term is >= 0 and the term of (a,b,c) is > 0 *)
   assert (G : forall l, (forall t, In t l -> In t ts) ->
               0 <= Rsum (fun t => let '(t1, t2, t3) := t in tria_vol4_fn v ts t / 4 / 3 * (u t1 * u t1 + u t2 * u t2 + u t3 * u t3)) l).
